@@ -266,8 +266,7 @@ def extend_schema(
         directives=directives,
         nodes=(schema.nodes or []) + (schema_exts or []),  # type: ignore
     )
-    extended.default_resolver = schema.default_resolver
-    extended.default_resolvers.update(schema.default_resolvers)
+    schema._copy_registries_to(extended)
     schema = extended
 
     if schema_directives is not None:
